@@ -338,9 +338,15 @@ func runCheck(prop, tierName, repoDir, verifDir string, workers int, only string
 		if r.BudgetHit {
 			fmt.Fprintf(os.Stderr, "note: %s: path budget reached, exploration incomplete\n", r.Name)
 		}
-		if r.Witnesses == 0 {
+		if r.Witnesses == 0 && r.Aborts == 0 {
 			fmt.Fprintf(os.Stderr, "gosym: harness %s reached no reachability witness (vacuous harness?)\n", r.Name)
 			exit = 2
+		} else if r.Witnesses == 0 {
+			// every path ended at an unsupported construct or a limit before
+			// the harness proper started (a package initialiser, say):
+			// nothing was decided, which is not a verdict and not a defect
+			// of the harness
+			fmt.Fprintf(os.Stderr, "note: %s: no path was decided (all %d paths ended at an unsupported construct or limit)\n", r.Name, r.Aborts)
 		}
 	}
 	if totalAborts > 0 || totalUnknown > 0 {
